@@ -7,6 +7,7 @@ import NostrRelay.Model.RateLimiter
 import NostrRelay.Model.Notifier
 import NostrRelay.Model.KV
 import NostrRelay.Model.SQL
+import NostrRelay.Model.Json
 
 open Lean
 
@@ -122,6 +123,31 @@ def parseFilters (j : Json) : List Filter := (getArr j "filters").toList.map KVD
 
 end SQLD
 
+/-! ### JSON frames: strings travel as arrays of code points -/
+namespace JD
+open NostrRelay.Json
+
+def cps (j : Json) : Str := (j.getArr?.toOption.getD #[]).toList.map fun x => (x.getNat?.toOption.getD 0)
+def jcps (s : Str) : Json := Json.arr (s.map fun n => Json.num (JsonNumber.fromNat n)).toArray
+def field (j : Json) (k : String) : Str := cps (j.getObjVal? k |>.toOption.getD Json.null)
+
+def parseFields (j : Json) : EventFields :=
+  { id := field j "id", pubkey := field j "pubkey", sig := field j "sig", createdAt := field j "created_at",
+    kind := field j "kind", content := field j "content",
+    tags := ((j.getObjVal? "tags").toOption.bind (·.getArr?.toOption) |>.getD #[]).toList.map fun t =>
+      (t.getArr?.toOption.getD #[]).toList.map cps }
+
+def fieldsJson (e : EventFields) : Json :=
+  Json.mkObj [("id", jcps e.id), ("pubkey", jcps e.pubkey), ("sig", jcps e.sig), ("created_at", jcps e.createdAt),
+    ("kind", jcps e.kind), ("content", jcps e.content), ("tags", Json.arr (e.tags.map fun t => Json.arr (t.map jcps).toArray).toArray)]
+
+def frameJson : Option Frame → Json
+  | none => Json.null
+  | some (.eose sid) => Json.mkObj [("t", Json.str "EOSE"), ("sid", jcps sid)]
+  | some (.event sid e) => Json.mkObj [("t", Json.str "EVENT"), ("sid", jcps sid), ("e", fieldsJson e)]
+
+end JD
+
 structure St where
   rlCfg : NostrRelay.RateLimiter.Config := {}
   rl : NostrRelay.RateLimiter.State := {}
@@ -186,6 +212,11 @@ def step (st : St) (j : Json) : St × Json :=
     (st, Json.mkObj [("all", jHexList (rows.map (·.id))), ("limit", Json.num (JsonNumber.fromNat lim)),
       ("strict", jHexList (strict.map (·.id))), ("incl", jHexList (incl.map (·.id))),
       ("ts", Json.mkObj (st.sql.events.map fun e => (toHex e.id, Json.num (JsonNumber.fromInt e.createdAt))))])
+  | "json.event" =>
+    (st, JD.jcps (NostrRelay.Json.eventAsJson (JD.field j "sid") (JD.parseFields (j.getObjVal? "e" |>.toOption.getD Json.null))))
+  | "json.eose" => (st, JD.jcps (NostrRelay.Json.eoseFrame (JD.field j "sid")))
+  | "json.enc" => (st, JD.jcps (NostrRelay.Json.encodeBasestring (JD.field j "s")))
+  | "json.parse" => (st, JD.frameJson (NostrRelay.Json.parseFrame (JD.field j "s")))
   | "nt.read" => (st, jHexList (NostrRelay.Notifier.readLoop 32 (by decide) [] (hexList j "chunks")))
   | "nt.readOld" => (st, jHexList (NostrRelay.Notifier.readLoopOld 32 (by decide) [] (hexList j "chunks")))
   | op => (st, Json.mkObj [("error", Json.str ("unknown op " ++ op))])
